@@ -26,7 +26,7 @@ RULE = (
 ASSUMPTIONS = [
     "when high_hz is omitted only even sampling rates are used (the documented default 'the Nyquist' and the implemented rate//2 coincide there)",
     "tolerances: layout 1e-9 relative; triangle bins 1e-9; peak gain 1 +- 2e-3, peak position within half a bin; L2 norm 1 +- 2% (gammatone order 1: +- 25%); "
-    "3 dB ratio 0.5 +- 0.01; ERB ratio 1 +- 1.5% (gammatone order 1: +- 8%)",
+    "3 dB ratio 0.5 +- 0.004 (the worst deviation measured over 60000 banks of the unchanged tree is 0.0013); ERB ratio 1 +- 1.5% (gammatone order 1: +- 8%)",
     "what happens for high_hz within 1 Hz above Nyquist or high_hz = 0 is not asserted (the statement leaves it open)",
 ]
 ANCHOR_FILES = ("src/pydrobert/speech/filters.py", "src/pydrobert/speech/scales.py")
@@ -205,7 +205,8 @@ def shape_checks(mon, rec, cfg, i, H, base, W, cen, edges, info, tag):
             if 1 <= x < len(P) - 2:
                 val = _interp_log(P, x)
                 rec.count("three_db_checks")
-                if not abs(val - 0.5) <= 0.01:
+                mon.worst3 = max(getattr(mon, "worst3", 0.0), abs(val - 0.5))
+                if not abs(val - 0.5) <= 0.004:
                     mon.v("%s filter %d: |H|^2 at its edge %.3f Hz is %.4f of the peak, documented 3 dB (0.5)%s" % (name, i, edge, val, tag), check="3dB", W=W, **info)
 
 
@@ -432,6 +433,7 @@ def run_shard(spec, rec):
                     sib["name"] = other
                 run_case({"idx": 10 ** 7 + 10 * i + j, "seed": spec["seed"], "cfg": sib}, rec, mon)
                 rec.count("sibling_banks_in_one_process")
+    rec.extra["worst_deviation_from_bound"] = {"3dB |ratio - 0.5| (bound 0.004)": round(float(getattr(mon, "worst3", 0.0)), 6)}
     monitor.report(rec)
     monitor.detach_all()
 
